@@ -53,6 +53,9 @@ def as_v(ev, x):
 
     if isinstance(x, V):
         return x
+    from .evalr import BoundExt as _BE
+    if isinstance(x, _BE):
+        return App("attr:" + x.name, (as_v(ev, x.recv),))
     if isinstance(x, ListElem):
         return App("getitem", (as_v(ev, x.lst), as_v(ev, x.idx)))
     if isinstance(x, Lst):
@@ -792,7 +795,19 @@ def call_method(ev, recv, name, args, kwargs, node):
         return v
     if name == "tolist":
         return App("tolist", (v,))
-    if name == "astype" or name == "copy":
+    if name == "astype":
+        from .evalr import ExtV
+        t = args[0] if args else kwargs.get("dtype")
+        if isinstance(t, ExtV) and t.dotted.split(".")[-1] in ("float", "float64", "double", "longdouble"):
+            kind = "float"
+        elif isinstance(t, ExtV) and t.dotted.split(".")[-1] in ("int", "int64", "intp", "bool", "int32"):
+            kind = "int"
+        else:
+            kind = "other"
+        if kind == "int" and storage_root(v) is None:
+            return v
+        return App("fresh", (v,), [("dtype", Const(kind))])
+    if name == "copy":
         return App("fresh", (v,)) if storage_root(v) is not None else v
     if name == "sort" and isinstance(v, V):
         root = storage_root(v)
